@@ -25,6 +25,7 @@ FmtLayout == <<91, 42, 93, 32, 61, 32>>          \* "[*] = "
 FmtConfig == <<91, 32, 93, 32, 61, 32, 35>>      \* "[ ] = #"  (separated style)
 AccAll    == <<69, 78, 83, 87, 101, 110, 115, 119>>
 NodeConfigs == {[fmt |-> CT!Null, acc |-> CT!Null], [fmt |-> FmtLayout, acc |-> AccAll], [fmt |-> FmtConfig, acc |-> AccAll]}
+NodeConfigsQ == {[fmt |-> CT!Null, acc |-> CT!Null], [fmt |-> FmtConfig, acc |-> AccAll]}
 nA == CT!B(<<97>>)  nB == CT!B(<<98>>)  nE == <<>>
 vX == CT!B(<<120>>) vE == <<>> vYZ == CT!B(<<121, 32, 122>>) vQ == CT!B(<<97, 34, 98>>)
 D(g, g2, b1, b2, b3, term) == [g |-> g, g2 |-> g2, b1 |-> b1, b2 |-> b2, b3 |-> b3, term |-> term]
@@ -47,6 +48,12 @@ RLoad   == {"single", "load"}
 RNode   == {"single", "nodeparse", "parsenode"}
 RCalls  == {"single", "environ", "args", "clear", "msgset", "msgget"}
 RAll    == RouteNames
+RT1 == {"single"}
+RT2 == {"single", "environ"}
+RT3 == {"single", "args", "clear"}
+RT4 == {"single", "msgset", "msgget"}
+RT5 == {"single", "load"}
+RT6 == {"single", "nodeparse", "parsenode"}
 RDocs   == {"single", "load", "nodeparse", "parsenode"}
 CfgTN   == {"top", "null"}
 CfgTNV  == {"top", "null", "view"}
@@ -54,7 +61,9 @@ CfgT    == {"top"}
 CfgTV   == {"top", "view"}
 PreQ    == {<<M, A>>, <<M>>, <<A>>}
 PreN    == {<<A>>, <<A, A>>, <<A, B>>, <<B>>}
-PreD    == {<<M, A>>, <<A>>, <<A, A>>, <<A, B>>}
+PreD    == {<<M, A>>, <<A>>, <<A, A>>}
+PreG    == {<<M, A>>, <<A, A>>}
+PreDT   == {<<M, A>>, <<A>>, <<A, A>>, <<A, B>>, <<M>>}
 PreC    == {<<M, A>>, <<A>>, <<A, B>>}
 
 \* environments ("NAME=value")
@@ -98,6 +107,8 @@ MGetQ == { MG(0, 1000, << <<A>> >>), MG(32, 2, << <<A>>, <<A, B>> >>), MG(0, 3, 
 MGetT == MGetQ \cup { MG(32, 1000, << <<M, E, A>> >>), MG(0, 1, << <<A, B>>, <<A>>, <<A, B>> >>), MG(32, 0, << <<A, B>> >>) }
 LK(how, where) == [how |-> how, where |-> where]
 LoadQ == { LK("root", "file"), LK("root", "dir"), LK("prefix", "file") }
+LoadTwo == { LK("root", "both"), LK("prefix", "both") }
+RLoadOnly == {"load"}
 LoadB == { LK("root", "file"), LK("root", "dir"), LK("root", "both"), LK("prefix", "file"), LK("prefix", "both") }
 BasesQ == { <<A>>, <<M, A>> }
 BasesT == { <<A>>, <<M, A>>, <<E>> }
@@ -112,6 +123,9 @@ ElemsQ == {<<>>, <<97>>, <<98, 97>>}
 FputQ == {Null0, <<58, 58>>}
 FputT == {Null0, <<58, 58>>, <<46>>, <<>>}
 
+SKBoth == {"assign", "remove"}
+SKAssign == {"assign"}
+DecosC == {DCom}
 Bound   == Count(st) <= MaxSlots /\ nops <= MaxOps
 BoundP  == Len(pel) <= 3 /\ Len(po.buf) <= 6
 BoundPT == Len(pel) <= 4 /\ Len(po.buf) <= 8
